@@ -131,8 +131,11 @@ func (kv *vKV) DeletePrefix(prefix []byte) error {
 
 func (kv *vKV) Close() error { return nil }
 
+// View reads a snapshot, as the read transactions of the real stores do: writes
+// of other goroutines while the callback runs are not seen.
 func (kv *vKV) View(f func(it kvi.KVIterator) error) error {
-	return f(&vKVIter{kv: kv, i: -1})
+	ks, vs := kv.snapshot()
+	return f(&vKVIter{kv: &vKV{keys: ks, vals: vs, crashAt: -1}, i: -1})
 }
 
 type vKVTx struct{ kv *vKV }
